@@ -203,7 +203,7 @@ func chainEngine(args []string, in *bufio.Scanner, out *bufio.Writer) {
 									if l != nil && l.Round >= b.Round {
 										break
 									}
-									if tries > 200000 {
+									if tries > 3000 {
 										atomic.AddInt32(&bad, 1)
 										break
 									}
